@@ -1437,3 +1437,36 @@ Proof.
     vm_compute in Hin. destruct Hin as [<-|[<-|[<-|[]]]]; discriminate.
   - repeat split; vm_compute; reflexivity.
 Qed.
+
+(* ---------- "latest by stream order": on a valid stream the winning frame is the last one for that seq ---------- *)
+Lemma ckpts_seq_sorted (l : list ev) :
+  StronglySorted N.lt (map eseq l) ->
+  StronglySorted N.lt (map ck_seq (ckpts l)) /\ Forall (fun x => In x (map eseq l)) (map ck_seq (ckpts l)).
+Proof.
+  induction l as [|e l IH]; intros H; [split; constructor|].
+  cbn [map] in H. inversion H as [|a l' Hs Ha]; subst. destruct (IH Hs) as [IH1 IH2].
+  assert (Hincl : Forall (fun x => In x (map eseq (e :: l))) (map ck_seq (ckpts l))).
+  { eapply Forall_impl; [|exact IH2]. cbn. intros; auto. }
+  unfold ckpts in *. cbn [flat_map]. destruct (ebody e); cbn [app map ck_seq]; try (split; assumption).
+  split.
+  - constructor; [exact IH1|]. rewrite Forall_forall in *. intros x Hx. apply Ha, IH2, Hx.
+  - constructor; [left; reflexivity | exact Hincl].
+Qed.
+
+Lemma sorted_split_after (f : ck -> N) (x : list ck) : forall b y,
+  StronglySorted N.lt (map f (x ++ b :: y)) -> Forall (fun k => f b < f k) y.
+Proof.
+  induction x as [|a x IH]; intros b y H; cbn [app map] in H; inversion H as [|a' l' Hs Ha]; subst.
+  - rewrite Forall_forall in *. intros k Hk. apply Ha. apply in_map, Hk.
+  - apply IH, Hs.
+Qed.
+
+Theorem latest_is_last l s b x y :
+  valid l -> latest_for (ckpts l) s b -> ckpts l = x ++ b :: y -> Forall (fun k => ck_to k <> s) y.
+Proof.
+  intros Hv [Hin [Hto Hmax]] Hsplit. apply ckpts_seq_sorted in Hv. destruct Hv as [Hs _].
+  rewrite Hsplit in Hs. apply sorted_split_after in Hs. rewrite Forall_forall in *.
+  intros k Hk Hks. specialize (Hs k Hk). specialize (Hmax k).
+  assert (Hkin : In k (ckpts l)) by (rewrite Hsplit; apply in_or_app; right; right; exact Hk).
+  specialize (Hmax Hkin Hks). lia.
+Qed.
